@@ -267,7 +267,9 @@ def run(prop, tier, seed, replay=None, ck=None, finish=True):
         return fin()
 
     if tier == 'quick':
-        plan = [(['ab'], [1, 4, 5, 9], [0, 1, 3, 4, 5, 9], 14, 18, 5, ['one4', 'mix37', 'one4x2', 'one4x0'], 24)]
+        plan = [(['ab'], [1, 4, 5, 9], [0, 1, 3, 4, 5, 9], 14, 18, 5, ['one4', 'mix37', 'one4x2', 'one4x0'], 24),
+                # both directions of one stream pair (a reader that is also a writer: ReleaseReadAndReuse exchanges its buffers)
+                (['ab', 'ba'], [4], [4], 8, 8, 5, ['one4'], 4)]
     else:
         plan = [(['ab'], [1, 4, 5, 9], [1, 3, 4, 5, 9], 14, 18, 5, ['one4', 'mix37', 'mix348', 'one4x2', 'one4x0', 'mix37x1', 'big'], 1),
                 (['ab'], [1, 3, 4, 8], [2, 4, 7, 8], 12, 16, 6, ['one4', 'mix37', 'one4x2'], 16),
